@@ -2,7 +2,7 @@
 //! Each decodes the input with `arbitrary::Unstructured` into the case type of a proptest sub-check and runs the
 //! SAME oracle.  On a failure the case is written as a JSON replay file and the target panics (libFuzzer then also
 //! keeps the raw input as its artifact).
-use crate::checks::{c02, c12, c13, c16, c19};
+use crate::checks::{c02, c12, c13, c16, c19, c20};
 use crate::model::*;
 use crate::runner::Local;
 use arbitrary::Unstructured;
@@ -39,9 +39,9 @@ fn bits128(u: &mut Unstructured, max: u32) -> arbitrary::Result<u128> {
     Ok(if b == 0 { 0 } else { (r >> (128 - b)) | (1u128 << (b - 1)) })
 }
 
-pub fn swapstep(data: &[u8]) {
+pub fn decode_swapstep(data: &[u8]) -> Option<c02::StepCase> {
     let mut u = Unstructured::new(data);
-    let Ok(c) = (|| -> arbitrary::Result<c02::StepCase> {
+    (|| -> arbitrary::Result<c02::StepCase> {
         let p_cur = price(&mut u)?;
         let p_target = price(&mut u)?;
         let flag: bool = u.arbitrary()?;
@@ -54,12 +54,39 @@ pub fn swapstep(data: &[u8]) {
             exact_in: u.arbitrary()?,
             a_to_b: if p_cur == p_target { flag } else { p_target < p_cur },
         })
+    })()
+    .ok()
+}
+
+pub fn swapstep(data: &[u8]) {
+    let Some(c) = decode_swapstep(data) else { return };
+    let mut l = Local::default();
+    if let Err(m) = c02::check_step(&c, &mut l) {
+        fail("C02", "step", &c, m);
+    }
+}
+
+/// C20 math_functions: SDK vs program on the shared token / price math
+pub fn sdkmath(data: &[u8]) {
+    let mut u = Unstructured::new(data);
+    let Ok(c) = (|| -> arbitrary::Result<c20::MathCase> {
+        let p0 = price(&mut u)?;
+        let p1 = price(&mut u)?;
+        Ok(c20::MathCase {
+            p0,
+            p1,
+            liquidity: bits128(&mut u, 128)?,
+            amount: u.arbitrary()?,
+            flag: u.arbitrary()?,
+            lower: u.int_in_range(MIN_TICK..=MAX_TICK)?,
+            upper: u.int_in_range(MIN_TICK..=MAX_TICK)?,
+        })
     })() else {
         return;
     };
     let mut l = Local::default();
-    if let Err(m) = c02::check_step(&c, &mut l) {
-        fail("C02", "step", &c, m);
+    if let Err(m) = c20::check_math(&c, &mut l) {
+        fail("C20", "math_functions", &c, m);
     }
 }
 
@@ -85,7 +112,18 @@ pub fn dyntick(data: &[u8]) {
                 _ => c13::ArrOp::NextInit { slot, skew, a_to_b: u.arbitrary()? },
             });
         }
-        Ok(c13::ArrCase { tick_spacing: ts, array_no, ops })
+        // trailing bytes: optional start from a (nearly) full array
+        let prefill = if u.arbitrary::<u8>()? % 4 == 1 {
+            let n = u.int_in_range(0u8..=3)?;
+            let mut missing = vec![];
+            for _ in 0..n {
+                missing.push(u.int_in_range(0i16..=87)?);
+            }
+            Some(c13::Prefill { missing, seed: u.arbitrary()? })
+        } else {
+            None
+        };
+        Ok(c13::ArrCase { tick_spacing: ts, array_no, ops, prefill })
     })() else {
         return;
     };
